@@ -141,7 +141,9 @@ func c06RandomItems(c *core.Ctx, web bool) []c06Item {
 		s := &gen.Spec{}
 		source := web && c.Rng.Intn(3) == 0
 		if source {
-			s.Pattern = "||site.com^"
+			// (patterns with and without a five-character shortcut: the rules
+			// are spread over the lookup tables of the engine)
+			s.Pattern = []string{"||site.com^", "||site.com^", "site."}[c.Rng.Intn(3)]
 			s.Exception = c.Rng.Intn(5) > 0
 			if s.Exception {
 				switch c.Rng.Intn(9) {
@@ -163,7 +165,11 @@ func c06RandomItems(c *core.Ctx, web bool) []c06Item {
 			}
 			s.Important = c.Rng.Intn(4) == 0
 		} else {
-			s.Pattern = "||ads.com^"
+			s.Pattern = []string{"||ads.com^", "||ads.com^", "||ads.com^", "ads.", "://a", "|http://ads.com"}[c.Rng.Intn(6)]
+			if !web && s.Pattern == "|http://ads.com" {
+				// (a pattern anchored at the scheme is not applied to host names)
+				s.Pattern = "||ads.com^"
+			}
 			s.Exception = c.Rng.Intn(3) == 0
 			s.Important = c.Rng.Intn(3) == 0
 			if web {
